@@ -883,6 +883,12 @@ def run(chk):
              (mstats["programs"], mstats["renamed_programs"], len(mfails), time.time() - t_mm))
     chk.coverage["metamorphic"] = mstats
     fails.extend(mfails)
+    t_cc = time.time()
+    cfails, cstats = collision_oracle(chk, binary, known_ids)
+    vlib.log("[c13] collision renaming: %d variants over %d programs, %d differences in %.1fs" %
+             (cstats["variants"], cstats["programs_with_variants"], len(cfails), time.time() - t_cc))
+    chk.coverage["collision_renaming"] = cstats
+    fails.extend(cfails)
     unaudited = [x for x in tab.get("spelling_sites", []) if x not in AUDITED_SPELLING]
     chk.coverage["spelling_sites"] = {"total": len(tab.get("spelling_sites", [])), "unaudited": unaudited}
 
@@ -954,7 +960,7 @@ def run(chk):
             rr = results[(pos, n)]
             chk.sample("%s %s -> %s %s" % (pos, n, rr["stage"], rr["msg"][:80]))
 
-    fails.sort(key=lambda f: 0 if f.get("class") == "metamorphic-renaming" else 1)
+    fails.sort(key=lambda f: 0 if f.get("class") in ("metamorphic-renaming", "collision-renaming") else 1)
     for f in fails[:25]:
         if unaudited:
             f["unaudited_spelling_decisions"] = unaudited
@@ -973,7 +979,7 @@ def replay(path):
     binary = vlib.build_harness("debug")
     for v in data["violations"]:
         d = v["detail"]
-        if str(d.get("position", "")).startswith("whole-program:"):
+        if str(d.get("position", "")).startswith("whole-program:") or d.get("position") == "collision-renaming":
             cs = [{"id": ["r", "renamed"], "src": d["source"]}]
             if d.get("base_source"):
                 cs.append({"id": ["r", "base"], "src": d["base_source"]})
@@ -1294,8 +1300,7 @@ DERIVED_PREFIXES = ["__incan_web_"]
 
 def tokens_match(base, renamed, mapping):
     """renamed token stream == base token stream modulo the renaming (r# stripped, derived string literals mapped)."""
-    if len(base) != len(renamed):
-        return False, "length %d <> %d" % (len(base), len(renamed))
+    length_differs = len(base) != len(renamed)
 
     def strip(t):
         return t[2:] if t.startswith("r#") else t
@@ -1313,6 +1318,8 @@ def tokens_match(base, renamed, mapping):
         if a.startswith('"') and wordmap(a) == b:
             continue
         return False, " ".join(base[max(0, i - 6):i + 7]) + "   <>   " + " ".join(renamed[max(0, i - 6):i + 7])
+    if length_differs:
+        return False, "length %d <> %d (common prefix equal)" % (len(base), len(renamed))
     return True, ""
 
 
@@ -1409,6 +1416,43 @@ def main() -> None:
     first = Money(cents=5)
     second = Money(cents=5)
     println(first == second)
+''',
+    # scopes: `mut` locals/parameters and plain first bindings in different functions and methods, earlier and later
+    "feature_scopes": '''class Meter:
+    ticks: int
+
+    def bump(self, mut amount: int) -> int:
+        amount = amount + self.ticks
+        return amount
+
+def tally(values: List[int]) -> int:
+    mut total = 0
+    for item in values:
+        total = total + item
+    return total
+
+def describe(count: int) -> str:
+    twice = count * 2
+    label = f"double={twice}"
+    return label
+
+def widen(mut extra: int) -> int:
+    extra = extra + 1
+    return extra
+
+def later(seed: int) -> int:
+    mut grown = seed
+    grown = grown + 3
+    return grown
+
+def main() -> None:
+    first = tally([1, 2, 3])
+    println(first)
+    println(describe(4))
+    println(widen(5))
+    println(later(6))
+    gauge = Meter(ticks=2)
+    println(gauge.bump(7))
 ''',
     "feature_serde": '''@derive(Serialize, Deserialize)
 model Reading:
@@ -1621,3 +1665,248 @@ def run_outputs(programs, tag):
 # the reason). ("<program>", "*") excludes every bijection of that program.
 META_EXCLUDE = {
 }
+
+
+# =========================================================================================== collision renaming
+# The bijections above are injective on a program's names: they keep coincidences but never CREATE one. This family
+# renames ONE scope-local identifier of one function (plain `N = e` first binding, `mut`/`let` local, parameter, `for`
+# variable, pattern binder, closure parameter) to the spelling of an identifier that lives in a DIFFERENT, non-enclosing
+# scope of the same file (another function's local / mut local / mut parameter, a field, a method) and that is neither
+# visible nor mentioned in the renamed function. Expected: same stage, same rustc verdict, same Rust tokens modulo the
+# renaming of that one binding's occurrences.
+
+def function_regions(src):
+    """[(def name, first line, last line+1, {local: kind})] for every def (top-level functions and methods)."""
+    raw = src.split("\n")
+    code = blank_code(src).split("\n")
+    if len(code) != len(raw):
+        return []
+    regs = []
+    i = 0
+    n = len(code)
+    while i < n:
+        m = re.match(r'(\s*)(?:pub\s+)?(?:async\s+)?def\s+([A-Za-z_]\w*)', code[i])
+        if not m:
+            i += 1
+            continue
+        ind = len(m.group(1))
+        # header may span lines until the parens balance and the line ends with ':'
+        j = i
+        depth = 0
+        while j < n:
+            for ch in code[j]:
+                if ch in "([{":
+                    depth += 1
+                elif ch in ")]}":
+                    depth -= 1
+            if depth <= 0:
+                break
+            j += 1
+        k = j + 1
+        while k < n and (not code[k].strip() or len(code[k]) - len(code[k].lstrip()) > ind):
+            k += 1
+        while k > j + 1 and not code[k - 1].strip():
+            k -= 1
+        header = " ".join(x.strip() for x in code[i:j + 1])
+        body = code[j + 1:k]
+        kinds = {}
+        hm = re.match(r'(?:pub\s+)?(?:async\s+)?def\s+[A-Za-z_]\w*\s*(?:\[[^\]]*\])?\s*\((.*)$', header)
+        if hm:
+            rest = hm.group(1)
+            d, end = 1, len(rest)
+            for q, ch in enumerate(rest):
+                if ch in "([{":
+                    d += 1
+                elif ch in ")]}":
+                    d -= 1
+                    if d == 0:
+                        end = q
+                        break
+            for prm in split_top(rest[:end]):
+                pm = re.match(r'\s*(mut\s+)?([A-Za-z_]\w*)', prm)
+                if pm and pm.group(2) != "self":
+                    kinds.setdefault(pm.group(2), "mutparam" if pm.group(1) else "param")
+        for line in logical_lines("\n".join(body)):
+            s = line.strip()
+            if re.match(r'(?:pub\s+)?(?:async\s+)?def\s', s):
+                continue
+            mm = re.match(r'(mut|let)\s+([A-Za-z_]\w*)', s)
+            if mm:
+                kinds.setdefault(mm.group(2), mm.group(1))
+            else:
+                mm = re.match(r'([A-Za-z_]\w*)\s*(?::[^=]*)?=(?!=)', s)
+                if mm and not s.startswith(("return ", "if ", "elif ", "while ", "assert ")):
+                    kinds.setdefault(mm.group(1), "plain")
+            for fm in re.finditer(r'\bfor\s+(.+?)\s+in\b', s):
+                for x in _ID_RE.findall(fm.group(1)):
+                    if x != "mut":
+                        kinds.setdefault(x, "for")
+            cm = re.match(r'case\s+(.*?)\s*:', s)
+            if cm:
+                for x in pattern_binders(re.split(r'\s+if\s+', cm.group(1))[0]):
+                    kinds.setdefault(x, "binder")
+            for cl in re.finditer(r'\(([^()]*)\)\s*=>', s):
+                for x in _ID_RE.findall(cl.group(1)):
+                    kinds.setdefault(x, "closure")
+        regs.append((m.group(2), i, k, kinds))
+        i = j + 1
+    return regs
+
+
+def collision_variants(src, special, limit, rng):
+    """[(description, renamed source, x, t)] -- one local x of one function renamed to a name t of a different scope."""
+    regs = function_regions(src)
+    if len(regs) < 2:
+        return []
+    raw = src.split("\n")
+    code = blank_code(src).split("\n")
+    decl = declared_names(src)
+    all_locals = set()
+    for _, _, _, kinds in regs:
+        all_locals.update(kinds)
+    def_names = set(r[0] for r in regs)
+    top_items = set()
+    fields_methods = {}
+    for line in code:
+        tm = re.match(r'(?:pub\s+)?(?:async\s+)?(?:def|class|model|trait|enum|newtype|type|const)\s+([A-Za-z_]\w*)', line)
+        if tm:
+            top_items.add(tm.group(1))
+        fm = re.match(r'\s+(?:pub\s+)?([a-z_]\w*)\s*:\s*\S', line)
+        if fm and not re.match(r'\s+(mut|let)\s', line):
+            fields_methods.setdefault(fm.group(1), "field")
+        mm = re.match(r'\s+(?:pub\s+)?(?:async\s+)?def\s+([a-z_]\w*)', line)
+        if mm:
+            fields_methods.setdefault(mm.group(1), "method")
+    for line in code:
+        if re.match(r'\s*(import|from)\s', line):
+            top_items.update(_ID_RE.findall(line))
+    kwarg_used = set(re.findall(r'[(,]\s*([A-Za-z_]\w*)\s*=(?!=)', "\n".join(code)))
+    out = []
+    order = list(range(len(regs)))
+    rng.shuffle(order)
+    # prefer the interesting source kinds first
+    prio = {"plain": 0, "for": 1, "binder": 1, "let": 2, "mut": 2, "param": 3, "closure": 3, "mutparam": 4}
+    seen_cat = set()
+    for fi in order:
+        fname, a, b, kinds = regs[fi]
+        region_code = "\n".join(code[a:b])
+        region_ids = set(_ID_RE.findall(region_code)) | set(x for k, t in incan_tokens("\n".join(raw[a:b])) if k == "fstr" for x in _ID_RE.findall(t))
+        # enclosing regions (a method inside ... defs are not nested here, but be safe)
+        xs = sorted((x for x in kinds if not special(x) and x in decl and len(x) > 1), key=lambda x: (prio.get(kinds[x], 9), x))
+        for x in xs:
+            if re.search(r'\.\s*%s\b' % re.escape(x), region_code):
+                continue
+            if kinds[x] in ("param", "mutparam") and x in kwarg_used:
+                continue
+            if x in fields_methods or x in top_items:
+                continue
+            cands = []
+            for gi, (gname, ga, gb, gk) in enumerate(regs):
+                if gi == fi or (ga <= a and b <= gb) or (a <= ga and gb <= b):
+                    continue
+                for t, tk in gk.items():
+                    cands.append((t, tk + ("-earlier" if ga < a else "-later")))
+            for t, tk in fields_methods.items():
+                cands.append((t, tk))
+            rng.shuffle(cands)
+            cands.sort(key=lambda c: 0 if c[1] in ("mut-earlier", "mutparam-earlier") else 1 if c[1].startswith("mut") else 2)
+            per_x = 0
+            for t, tk in cands:
+                cat = (kinds[x], tk)
+                if cat in seen_cat:
+                    continue
+                if (t == x or special(t) or t in region_ids or t in top_items or t in def_names or case_class(t) != case_class(x)
+                        or t in kwarg_used and kinds[x] in ("param", "mutparam")):
+                    continue
+                new_region = rename_source("\n".join(raw[a:b]), {x: t})
+                new_src = "\n".join(raw[:a] + new_region.split("\n") + raw[b:])
+                out.append(("%s `%s` of %s() -> `%s` (%s elsewhere)" % (kinds[x], x, fname, t, tk), new_src, x, t))
+                seen_cat.add(cat)
+                per_x += 1
+                if per_x >= 3 or len(out) >= limit:
+                    break
+            if len(out) >= limit:
+                return out
+    return out
+
+
+def vocab_special(binary, progs):
+    ids = set()
+    for src in progs.values():
+        for k, t in incan_tokens(src):
+            if k == "id":
+                ids.add(t)
+            elif k == "fstr":
+                ids.update(_ID_RE.findall(t))
+    vocab = {}
+    for line in vlib.run_harness(binary, ["run", "c13", "vocab"], "\n".join(sorted(ids)) + "\n").split("\n"):
+        if line:
+            r = json.loads(line)
+            vocab[r["name"]] = r
+
+    def special(n):
+        v = vocab.get(n)
+        return (v is None or v["incan_keyword"] or v["rust_keyword"] or bool(v["vocab"]) or n in INCAN_SOFT or n.startswith("__") or
+                n.startswith("test_") or n.startswith("from_"))
+    return special
+
+
+def _width_insensitive(tokens):
+    # a different name length lets prettyplease re-wrap: trailing commas and arm braces come and go
+    return [t for t in tokens if t not in (",", "{", "}")]
+
+
+def collision_oracle(chk, binary, known_ids):
+    progs = corpus_programs()
+    special = vocab_special(binary, progs)
+    limit = 6 if chk.tier == "quick" else 24
+    cases, plan = [], {}
+    for pid, src in sorted(progs.items()):
+        rng = __import__("random").Random(chk.seed + 7 * sum(ord(c) for c in pid))
+        vs = collision_variants(src, special, 24 if pid.startswith("feature:") else limit, rng)
+        if vs:
+            plan[pid] = vs
+            cases.append({"id": ["col", pid, "base"], "src": src})
+            for i, (desc, nsrc, x, t) in enumerate(vs):
+                cases.append({"id": ["col", pid, str(i)], "src": nsrc})
+    results = run_emit(binary, cases) if cases else {}
+    fails = []
+    stats = {"programs_with_variants": len(plan), "variants": sum(len(v) for v in plan.values()), "categories": {}, "different": 0}
+    rust = {}
+    for pid, vs in sorted(plan.items()):
+        b = results[("col", pid, "base")]
+        for i, (desc, nsrc, x, t) in enumerate(vs):
+            r = results[("col", pid, str(i))]
+            cat = re.sub(r'`[^`]*`', '', desc).split(" of ")[0].strip() + "->" + desc.split("(")[-1].rstrip(")")
+            stats["categories"][cat] = stats["categories"].get(cat, 0) + 1
+            chk.count_case(("col", pid, i), nontrivial=(r["stage"] == "ok"))
+            why = None
+            if (r["stage"], r["syn_ok"]) != (b["stage"], b["syn_ok"]):
+                why = "verdict changed: base %s -> renamed %s (%s)" % (b["stage"], r["stage"], r["msg"][:200])
+            elif b["stage"] == "ok":
+                ok, diff = tokens_match(_width_insensitive(b["tokens"]), _width_insensitive(r["tokens"]), {x: t})
+                if not ok:
+                    why = "emitted Rust differs by more than the renaming of this one binding: " + diff
+                elif chk.tier == "thorough" or pid.startswith(("feature:", "template:")):
+                    rust["%s|base" % pid] = b["rust"]
+                    rust["%s|%d" % (pid, i)] = r["rust"]
+            if why:
+                stats["different"] += 1
+                fails.append({"position": "collision-renaming", "name": pid, "class": "collision-renaming", "what": desc,
+                              "renaming": {x: t}, "source": nsrc, "base_source": progs[pid],
+                              "expected": "same verdict (%s) and the same Rust tokens modulo renaming that one binding" % b["stage"],
+                              "actual": {"stage": r["stage"], "msg": why[:600], "syn_ok": r["syn_ok"]}})
+    if rust:
+        rr = rustc_batch(rust, "col")
+        stats["rustc_programs"] = len(rust)
+        for key, (ok, msg) in sorted(rr.items()):
+            pid, i = key.rsplit("|", 1)
+            if i == "base" or ok or not rr.get(pid + "|base", (True, ""))[0]:
+                continue
+            desc, nsrc, x, t = plan[pid][int(i)]
+            stats["different"] += 1
+            fails.append({"position": "collision-renaming", "name": pid, "class": "collision-renaming", "what": desc,
+                          "renaming": {x: t}, "source": nsrc, "base_source": progs[pid],
+                          "expected": "rustc accepts the renamed program as it accepts the original",
+                          "actual": {"stage": "rustc", "msg": msg}})
+    return fails, stats
